@@ -209,7 +209,7 @@ func (kt *kindTable) unmarshalOutcomes(k int64, nullable bool) ([]outcome, *ssa.
 	if f == nil {
 		return nil, nil
 	}
-	in := &interp{p: kt.p, f: f}
+	in := &interp{p: kt.p, f: f, inline: smallHelper}
 	outs := in.run(map[*ssa.Parameter]*aval{f.Params[0]: attrStruct(k, nullable), f.Params[1]: symv("data", f.Params[1].Type())})
 	return outs, f
 }
